@@ -289,6 +289,14 @@ pub mod verif_plan_cache {
     pub fn get_or_generate(symbol_count: u16) -> super::SourceBlockEncodingPlan {
         (*super::get_or_generate_source_block_encoding_plan(symbol_count)).clone()
     }
+
+    // verification hook H8: the shared handle itself, so that a harness holding only a Weak can
+    // observe how long the cache keeps a plan alive
+    pub fn get_or_generate_shared(
+        symbol_count: u16,
+    ) -> super::Arc<super::SourceBlockEncodingPlan> {
+        super::get_or_generate_source_block_encoding_plan(symbol_count)
+    }
 }
 #[derive(Clone, Debug, PartialEq, Eq)]
 #[cfg_attr(feature = "serde_support", derive(Serialize, Deserialize))]
